@@ -11,6 +11,40 @@ NA = {
  "C19": "the splitters are pure functions of (header, sizes); the files they read/write involve no history or fault the statement speaks about (DESIGN.md section 6)",
 }
 
+
+META = {
+ "C02": ("deterministic simulation: seeded partition schedule (sub-blocks x blocks x files) and write/open/source faults with retry; oracle = RefGuppi decode vs RefPipeline driven by the antenna request log, plus same-seed partition twins",
+         "every decoded sample of every recording compared with an independent reference (direct-definition PFB, quantiser model) over thousands of seeded configurations and partitions per run; sampling, not proof"),
+ "C03": ("deterministic simulation: seeded operation histories on frames and their parents (get_waterfall/copy/pickle/slice/dedrift/save/load) under a jumping simulated clock; oracle = loaded frame vs saved frame, blimpy as independent reader, helper functions",
+         "round trips through real blimpy/h5py I/O for every generated history; exploration of the history space, not exhaustive"),
+ "C04": ("deterministic simulation: seeded header dictionaries, recordings with injected write/open faults and retries, simulated directory-listing permutations; oracle = RefGuppi parse with no residue, blimpy GuppiRaw and setigen readers must agree; header length mod 32 x DIRECTIO enumerated",
+         "enumerates all 32 header-length residues x 3 DIRECTIO classes and all listing permutations of small recordings on every run, samples the rest"),
+ "C06": ("deterministic simulation: seeded sequences of injections over several live frames (incl. float32 loaded from file); frame-state invariant evaluated over all live frames after every operation",
+         "bitwise additivity/confinement/state-preservation invariants after every op; exploration"),
+ "C08": ("deterministic simulation: seeded chunking schedules, cache on/off calls, resets and interleavings of several filterbank objects; oracle = direct FIR+DFT definition on the consumed prefix",
+         "every returned spectrum compared with the definition at 1e-10 of the attainable magnitude; exploration of chunk compositions"),
+ "C09": ("deterministic simulation: seeded call histories per quantiser object against refresh periods; oracle = step-by-step reference quantiser with a rounding-tie band",
+         "every output integer compared with the reference; exploration of call histories"),
+ "C10": ("deterministic simulation: seeded request partitions interleaved with set_time/add_time/reset_start/update_noise; oracles = exact-time reference stream and chunked-vs-one-shot same-seed twin",
+         "times bitwise in dyadic configurations, seeded noise bitwise, chirps within a derived bound; exploration"),
+ "C11": ("deterministic simulation: seeded histories of noise additions/zero_data/injections/copies with a bookkeeping model; distributional clauses at analytically derived 7-sigma bands; stream quadrature clause",
+         "bookkeeping decided op by op; moment tests have stated power only (k off by 4 detected for k <= 40 at N >= 16384)"),
+ "C12": ("deterministic simulation, differential between executions: same seeded program in forked sub-children under different clock/entropy/listing/scratch seams; with vs without a prefix history in the same process; reused backend vs fresh backend on a replayed request log; reused vs fresh caller dictionary; copy/pickle isolation invariant",
+         "event-by-event comparison of all observables between executions; exploration of programs; the seam or prefix op responsible is identified by re-running with one varied at a time"),
+ "C14": ("deterministic simulation: inputs written by setigen or by RefGuppi, listing permutations while building, injected faults with retry; oracle = RefGuppi decode of every block read, framing equality, and RefQuant(input + RefQuant0(RefPFB(synthetic))) with deviations snapshotted before the recording",
+         "every sample of every output block compared with the reference unless its inner quantisation sits on a rounding boundary; exploration"),
+ "C15": ("deterministic simulation: seeded request partitions interleaved with set_time/add_time/reset_start on arrays with seeded delay vectors; oracle = own[k] + background[k + max_delay - delay_i] from same-seed reference streams",
+         "every sample compared (bitwise for noise-only streams); exploration"),
+ "C16": ("deterministic simulation with enumerated fault points: per generated scenario every invocation index of every user callable raises once and every line event inside the per-frame injection is interrupted once (sys.settrace); oracle = shifted-callable twin, time axes restored, later frames untouched",
+         "fault points are enumerated completely per scenario (no sub-sampling observed below 1500 line events); scenarios themselves are sampled"),
+ "C17": ("deterministic simulation: seeded derive histories (slice/dedrift/integrate, derived-of-derived, loaded float32 and Waterfall-carrying parents) under a jumping simulated clock; oracle = the statement's formulas on the parent, mutation isolation both ways",
+         "each derive op checked as it happens; the arithmetic itself is pure (stated caveat), the clock- and history-dependent clauses are what simulation adds"),
+ "C18": ("deterministic simulation, model-based: seeded list-operation histories over compatible/incompatible/non-frame objects; oracle = Python list by identity plus label bookkeeping after every op; rejected operations are the faults",
+         "identity comparison with the reference list after every op; exploration of histories up to 18 (quick) / 30 (thorough) ops"),
+ "C20": ("deterministic simulation: conservation over the antenna request log (a seam the code already has) for recordings by block count or duration, with injected faults and retries; helper functions cross-checked on the drawn configurations",
+         "exact integer and 2-ulp ratio checks per recording; exploration; the pure helper functions are only reached as cross-checks (scope stated)"),
+}
+
 def main():
     props = [json.loads(l) for l in open(os.path.join(HERE, "properties.jsonl"))]
     checks = []
@@ -35,10 +69,10 @@ def main():
             "replay_cmd_template": "./check --replay {path}",
             "engine": "simworld",
             "level_claimed": {"category": getattr(mod, "LEVEL", "exploration"),
-                              "text": getattr(mod, "LEVEL_TEXT", "seeded search over schedules/histories/faults against a reference model; a clean batch is evidence, not proof"),
+                              "text": META.get(pid, ("", "seeded search over schedules/histories/faults against a reference model; a clean batch is evidence, not proof"))[1],
                               "design_ref": "DESIGN.md section 5, " + pid},
-            "level_note": getattr(mod, "LEVEL_NOTE", "trusted: numpy, scipy, astropy, blimpy/h5py as I/O parties, CPython fork and settrace; the reference models in sim/models"),
-            "technique": getattr(mod, "TECHNIQUE", "deterministic simulation: seeded op/fault schedules in forked children, reference-model oracle, ddmin replay"),
+            "level_note": "trusted: numpy, scipy (firwin), astropy, blimpy/h5py as I/O parties, CPython fork and sys.settrace, and the reference models in sim/models; assumptions of this check: " + "; ".join(getattr(mod, "ASSUMPTIONS", [])),
+            "technique": META.get(pid, ("deterministic simulation: seeded op/fault schedules in forked children, reference-model oracle, ddmin replay",))[0],
         })
     man = {
         "version": 1,
